@@ -33,20 +33,32 @@ def main():
       continue
     for i, (xb, yb) in enumerate(zip(r["x"], r["y"])):
       rep.count((r["desc"], xb), nontrivial=True)
-    for bi in coq["bad"][:1]:
-      xb, yb = r["x"][bi], r["y"][bi]
-      rep.violation(f"model-mismatch-{r['desc']}",
-                    f"{r['desc']}: implementation output differs from the Coq model (or leaves the grid/range)",
-                    {"config": c, "x_bits": xb, "x": float(env.b2f([xb])[0]), "y_bits": yb,
-                     "y": float(env.b2f([yb])[0]), "n_bad": len(coq["bad"])})
     rep.sample({"config": r["desc"], "x_bits": r["x"][:3], "y_bits": r["y"][:3]})
     # direct property evaluation on the implementation's outputs
     se, lo, hi = fixed_k.fmt_of(c)
+    step = 2.0 ** se
     x = env.b2f(r["x"]).astype(np.float64)
     y = env.b2f(r["y"]).astype(np.float64)
     alpha = float(np.float32(c.get("alpha") or 1.0))
     hyp = np.isfinite(x) & (np.abs(x) < fixed_k.hyp_bound(c))
     yy = y[hyp]
+    if coq["bad"]:
+      # the correspondence broke: search the disagreeing inputs for one where the PROPERTY itself fails
+      # (off the grid alpha*k*step, or outside [lo, hi]); otherwise report without a failing input
+      k = y / (alpha * step) if c["fam"] in ("qbits", "qlin") else y / step
+      tolk = 0.0 if (Fraction(alpha).numerator == 1 or Fraction(alpha).denominator == 1) else 2.0 ** -20 * np.maximum(np.abs(x) / step, 1.0)
+      halfstep = 0.5 if (c["fam"] == "qlin" and c["bits"] == 1 and c["kn"] == 1) else 0.0
+      prop_bad = hyp & ((np.abs((k - halfstep) - np.round(k - halfstep)) > tolk) | (k < lo - tolk - halfstep) | (k > hi + tolk + halfstep))
+      cand = [bi for bi in coq["bad"] if bi < len(prop_bad) and prop_bad[bi]]
+      bi = cand[0] if cand else coq["bad"][0]
+      xb, yb = r["x"][bi], r["y"][bi]
+      rep.violation(f"model-mismatch-{r['desc']}",
+                    f"{r['desc']}: implementation output differs from the Coq model" +
+                    (" and is not a representable code of the format" if cand else
+                     " (the output is still a representable code: correspondence Quant/Fixed.v no longer checks)"),
+                    {"config": c, "x_bits": xb, "x": float(env.b2f([xb])[0]), "y_bits": yb,
+                     "y": float(env.b2f([yb])[0]), "n_bad": len(coq["bad"]), "correspondence": "Quant/Fixed.v chk_* vs quantizers.py"},
+                    no_input=not cand)
     nd = len(set(yy.tolist()))
     bits = c["bits"]
     pow2_alpha = Fraction(alpha).numerator == 1 or Fraction(alpha).denominator == 1
